@@ -161,6 +161,19 @@ def check(ctx: Ctx) -> None:
         ob.site(ui, takes[0] if takes else None, "Unserializer adopts channel_or_gateway._strconfig")
         if not takes:
             ob.violation(ui, ui.node, "Unserializer.__init__ no longer adopts the strconfig of its channel/gateway", construct="no _strconfig adoption")
+        else:
+            from ..util import Facts
+            cfu = build_cfg(repo, ui, Oracle(repo, ui, precise=True))
+            for nd in cfu.node_containing(takes[0]):
+                f = Facts(repo, ui, {})
+                for (t, lab) in cfu.guards(nd.id):
+                    if t.kind == "test":
+                        f.assume(t.ast, lab == "true")
+                ok = f.env == {"channel_or_gateway is None": False}
+                ob.site(ui, takes[0], "the channel's/gateway's *current* strconfig wins whenever one is given", guards=dict(f.env))
+                if not ok:
+                    ob.violation(ui, takes[0], "the strconfig of the channel/gateway is adopted only under an extra condition: a snapshot passed explicitly (callback "
+                                               "registration time) overrides a later Channel.reconfigure()")
         # RECONFIGURE handler stores the received pair unmodified
         fr = repo.func(f"{GB}.Message._reconfigure")
         stores = [n for n in repo.own_nodes(fr) if isinstance(n, ast.Assign) and unparse(n.targets[0]).endswith("._strconfig")]
